@@ -43,6 +43,7 @@ type Node struct {
 	Wire    map[mesh.PeerName][]Msg   // FIFO to each neighbour
 	// Unicasts records GossipUnicast calls (peer frames); the harness delivers them.
 	Unicasts []Msg
+	carry    map[mesh.PeerName]int // coalescing steps counted by senders of connections that have since been broken
 }
 
 // NewNet creates an empty network.
@@ -65,6 +66,37 @@ func (nd *Node) neighbours() []mesh.PeerName {
 		}
 	}
 	return out
+}
+
+// SetDown breaks (down = true) or re-establishes the connection between a and b. A broken connection loses what was
+// queued on it and what was in flight; a new connection starts with each side's complete state queued on it
+// (mesh: sendAllGossipDown), which the callers pass as ga / gb (nil = nothing to send).
+func (n *Net) SetDown(a, b mesh.PeerName, down bool, ga, gb mesh.GossipData) {
+	n.mu.Lock()
+	defer n.mu.Unlock()
+	n.Down[[2]mesh.PeerName{a, b}], n.Down[[2]mesh.PeerName{b, a}] = down, down
+	x, y := n.Nodes[a], n.Nodes[b]
+	if down {
+		for _, q := range [][2]*Node{{x, y}, {y, x}} {
+			if sd := q[0].senders[q[1].Name]; sd != nil {
+				if q[0].carry == nil {
+					q[0].carry = map[mesh.PeerName]int{}
+				}
+				q[0].carry[q[1].Name] += sd.Coalesced
+			}
+		}
+		delete(x.senders, b)
+		delete(y.senders, a)
+		delete(x.Wire, b)
+		delete(y.Wire, a)
+		return
+	}
+	if ga != nil {
+		x.senderFor(b).send(ga)
+	}
+	if gb != nil {
+		y.senderFor(a).send(gb)
+	}
 }
 
 func (nd *Node) senderFor(to mesh.PeerName) *sender {
@@ -145,7 +177,7 @@ func (nd *Node) Pending(to mesh.PeerName) (gossip bool, broadcasts int) {
 func (nd *Node) NilBuckets(to mesh.PeerName) int { return nd.senderFor(to).NilBucket }
 
 // Coalesced returns how many merges into non-empty buckets happened on the link to `to`.
-func (nd *Node) Coalesced(to mesh.PeerName) int { return nd.senderFor(to).Coalesced }
+func (nd *Node) Coalesced(to mesh.PeerName) int { return nd.carry[to] + nd.senderFor(to).Coalesced }
 
 // Pick is gossipSender.pick + deliver for one payload: the gossip bucket first, then the broadcast of src; the
 // payload is encoded and put on the wire. It returns the messages put on the wire.
